@@ -315,6 +315,12 @@ QXmppTask<QXmppMamManager::RetrieveResult> QXmppMamManager::retrieveMessages(con
             state.runningDecryptionJobs = state.messages.size();
 
             const auto size = state.messages.size();
+            // nothing to decrypt (empty result page): finish right away
+            if (size == 0) {
+                state.finish();
+                d->ongoingRequests.erase(itr);
+                return;
+            }
             for (qsizetype i = 0; i < size; i++) {
                 const auto &message = state.messages.at(i);
 
